@@ -946,18 +946,23 @@ class VTF:
                 _format_funcs.save(self.low_format, self._low_res._data, data, self._low_res.width, self._low_res.height)
             file.write(data)
 
-        depth_seq = self._depth_range()
+        # The reader expects the sides of the version in the file, not of the one this object was made for.
+        depth_seq = self._depth_range(version_minor)
 
         if version_minor >= 3:
             deferred.set_data('high_res', file.tell())
         for data_mipmap in reversed(range(self.mipmap_count)):
             for frame_ind in range(self.frame_count):
                 for depth_or_cube in depth_seq:
-                    frame = self._frames[
-                        frame_ind,
-                        depth_or_cube,
-                        data_mipmap,
-                    ]
+                    try:
+                        frame = self._frames[
+                            frame_ind,
+                            depth_or_cube,
+                            data_mipmap,
+                        ]
+                    except KeyError:
+                        # A 7.5 cubemap saved as an older version has no sphere map, store a blank one.
+                        frame = Frame(max(self.width >> data_mipmap, 1), max(self.height >> data_mipmap, 1))
                     frame.load()
                     data = bytearray(self.format.frame_size(frame.width, frame.height))
                     if frame._data is not None:
@@ -983,13 +988,16 @@ class VTF:
         for frame in self._frames.values():
             frame._fileinfo = None
 
-    def _depth_range(self) -> Sequence[Union[int, CubeSide]]:
+    def _depth_range(self, version_minor: Optional[int] = None) -> Sequence[Union[int, CubeSide]]:
         """Return the appropriate sequence for iterating over the _frames dict.
 
         Depending on the type of VTF, frames may either be per cubemap side, or per depth.
+        If the minor version is given, it is used instead of the version of this object.
         """
+        if version_minor is None:
+            version_minor = self.version[1]
         if VTFFlags.ENVMAP in self.flags:
-            if self.version[1] >= 5:  # Spheremaps were removed in 7.5+
+            if version_minor >= 5:  # Spheremaps were removed in 7.5+
                 return CUBES
             else:
                 return CUBES_WITH_SPHERE
